@@ -25,6 +25,13 @@ claim("C08", "path-sensitive SSA fact walk over the serving paths and the author
       "Structural necessary condition for all sessions/configurations: every serving path (authenticated return of getAuthenticatedSession, callback save, auth-only 202) is gated by the authorisation predicates evaluated on the same session with outcome true; denied paths clear the cookie; each small predicate (authOnlyAuthorize, checkAllowed*, ProviderData.Authorize) returns true only via 'not configured' or a membership test on the session's own field. Level 'other'.",
       TRUST + " Not decided: string semantics of e-mail/domain validators and allow-list contents.", "DESIGN.md §5 C08")
 
+claim("C05", "path-sensitive SSA fact walk + value provenance + closed reader sets + constant evaluation",
+      "Structural necessary condition of the nonce/PKCE binding for all logins/configurations: nonce set from the loaded CSRF cookie before ValidateSession on every saving path; OIDC validation true only with Verify ok and (SkipNonce or nonce claim hash-matches, constant-time); verifier fresh from crypto/rand, RFC 7636 length/alphabet constants, used only for challenge + CSRF cookie, redeemed from the loaded cookie and sent as code_verifier by every Redeem; only hashed state/nonce reach the login URL; raw fields have a closed reader set. Level 'other'.",
+      TRUST + " Not decided: IdP behaviour, entropy, msgpack reflection reads of csrf fields.", "DESIGN.md §5 C05")
+claim("C09", "path-sensitive SSA fact walk + operand provenance + pass-through chain checks",
+      "Structural necessary condition of the lifetime threshold for all durations: Validate ok only with expiration==0 or t in (now-expiration, now+5m) with exactly those operands and t parsed from the MAC-covered timestamp; all callers pass Cookie.Expire; signed timestamp is *CreatedAt of the saved session; Save stamps only unset sessions; refresh re-stamps before saving; Max-Age and store TTL flow unchanged from Cookie.Expire. Level 'other'.",
+      TRUST + " Not decided: off-by-one/second-granularity value semantics of time comparisons; Redis TTL behaviour.", "DESIGN.md §5 C09")
+
 for i in range(2, 21):
     pid = "C%02d" % i
     if pid not in T:
